@@ -520,6 +520,15 @@ func c15PerTemplate(cs *c15Case, r *Rec, removed, survived int) error {
 			if e5 != nil || gotOn != want {
 				return fmt.Errorf("options TrimBlocks=%v LStripBlocks=%v switched on after a first execution without them: renders %q (err %v), hand-stripped %q\n files=%q", cs.Trim, cs.LStrip, gotOn, e5, want, files)
 			}
+			// off and on again: still exactly the named whitespace is gone (what the rendering looks
+			// like while the options are off again is not asserted)
+			late.Options.TrimBlocks, late.Options.LStripBlocks = false, false
+			_, _ = late.Execute(c15Context(cs.Variant))
+			late.Options.TrimBlocks, late.Options.LStripBlocks = cs.Trim, cs.LStrip
+			gotOn2, e6 := late.Execute(c15Context(cs.Variant))
+			if e6 != nil || gotOn2 != want {
+				return fmt.Errorf("options TrimBlocks=%v LStripBlocks=%v switched on, off and on again: renders %q (err %v), hand-stripped %q\n files=%q", cs.Trim, cs.LStrip, gotOn2, e6, want, files)
+			}
 			r.Class("options-after-first-execution")
 		}
 	}
